@@ -402,10 +402,12 @@ pub fn run(args: &Args) -> i32 {
   let sync_cases: Vec<(bool, u64, Fake)> = vec![
     (false, 150, Fake::Never),
     (false, 150, Fake::Signal(0)),
-    (true, 600, Fake::Signal(0)),
-    (true, 600, Fake::Signal(20)),
-    (true, 800, Fake::Signal(40)),
-    (true, 100, Fake::Signal(260)),
+    // margins of seconds between signal and deadline, so that a loaded machine cannot flip the outcome; a wait
+    // that is signalled returns at once, so the long deadlines cost nothing
+    (true, 5000, Fake::Signal(0)),
+    (true, 5000, Fake::Signal(20)),
+    (true, 6000, Fake::Signal(40)),
+    (true, 100, Fake::Signal(2500)),
     (true, 120, Fake::Never),
     (true, 60, Fake::Never),
     (true, 120, Fake::Drop),
